@@ -33,6 +33,7 @@ type knobs struct {
 	pCreds      float64
 	pTInt       float64
 	pCloseRace  float64
+	pDyn        float64 // in-process: a side uses dynamic messages
 	maxMsgs     int
 	cloners     []int
 	allMsgKinds bool
@@ -44,7 +45,7 @@ func defaultKnobs() knobs {
 		kinds:      []int{KUnary, KClientStream, KServerStream, KBidi},
 		maxRPC:     3, pErr: 0.3, pPlainErr: 0.15, pDeviate: 0.2, pCancel: 0.2, pDeadline: 0.1, pCut: 0, pAdvance: 0.05,
 		pMutate: 0.1, pMD: 0.4, pSplit: 0.15, pBig: 0.03, pSleep: 0.1, pWaitCtx: 0.05, pHdrCalls: 0.3, pExtraResp: 0.05, pUnenc: 0.0,
-		pJunkDst: 0.2, pClosure: 0.3, pStopOnErr: 0.5, pCtxVals: 0.2, pCreds: 0.1, pTInt: 0.2, maxMsgs: 4, cloners: []int{0, 0, 1, 2, 3, 4},
+		pJunkDst: 0.2, pDyn: 0.05, pClosure: 0.3, pStopOnErr: 0.5, pCtxVals: 0.2, pCreds: 0.1, pTInt: 0.2, maxMsgs: 4, cloners: []int{0, 0, 1, 2, 3, 4},
 	}
 }
 
@@ -201,6 +202,10 @@ func (g *gen) rpc(id int) *RPC {
 		r.Creds = &CredSpec{MD: g.md(2)}
 	}
 	r.StopOnErr = g.p(k.pStopOnErr)
+	if r.Transport == TInproc {
+		r.DynC = g.p(k.pDyn)
+		r.DynH = g.p(k.pDyn)
+	}
 	nReq := g.pick(k.maxMsgs + 1)
 	nResp := g.pick(k.maxMsgs + 1)
 	forceSplit := false
@@ -407,7 +412,7 @@ func (g *gen) rpc(id int) *RPC {
 			}
 		}
 	}
-	if r.Kind != KUnary && len(r.Client2) == 0 && !http && (forceSplit || g.p(k.pSplit)) {
+	if r.Kind != KUnary && len(r.Client2) == 0 && (forceSplit || g.p(k.pSplit)) {
 		// sender / receiver split of whatever the script is: all sending
 		// operations in one goroutine, everything else in the other (gRPC
 		// allows one sender and one receiver per stream, not more)
@@ -518,6 +523,17 @@ func (g *gen) program(profile string, seed int64) *Program {
 		p.Cfg.SendBuf = []int{1, 7, 64, 4096}[g.pick(4)]
 	}
 	p.Cfg.Cloner = k.cloners[g.pick(len(k.cloners))]
+	// HTTP server flavour: Server type or HandleServices on a mux, base path,
+	// error renderer
+	if g.p(0.25) {
+		p.Cfg.UseHandle = true
+	}
+	if g.p(0.3) {
+		p.Cfg.BasePath = []string{"/foo/", "/a/b/", "/foo", "/v1~x/"}[g.pick(4)]
+	}
+	if g.p(0.25) {
+		p.Cfg.Renderer = 1 + g.pick(2)
+	}
 	if g.p(k.pTInt) {
 		p.Cfg.TUnaryInt = g.p(0.7)
 		p.Cfg.TStreamInt = g.p(0.7)
@@ -531,6 +547,28 @@ func (g *gen) program(profile string, seed int64) *Program {
 		r := g.rpc(i)
 		p.RPCs = append(p.RPCs, r)
 		_ = big
+	}
+	if p.Cfg.Cloner >= 2 {
+		// the codec / clone-func / copy-func adapters create destinations by
+		// reflection (a zero dynamic.Message has no descriptor) and copy
+		// between identical Go types only: dynamic messages are used with the
+		// default and the ProtoCloner configuration
+		for _, r := range p.RPCs {
+			r.DynC, r.DynH = false, false
+		}
+	}
+	if p.Cfg.SendBuf > 0 && p.Cfg.SendBuf < 4096 {
+		// a tiny send buffer moves a message in buffer-sized pieces: keep the
+		// number of scheduler steps per message bounded
+		for _, r := range p.RPCs {
+			for _, ops := range [][]Op{r.Client, r.Client2, r.Handler} {
+				for i := range ops {
+					if ops[i].Msg != nil && ops[i].Msg.Size > 300*p.Cfg.SendBuf {
+						ops[i].Msg.Size = 300 * p.Cfg.SendBuf
+					}
+				}
+			}
+		}
 	}
 	total := 0
 	for _, r := range p.RPCs {
